@@ -1506,10 +1506,12 @@ _ical_proc(struct ical_parser_s p[static 1U])
 				/* bang umask */
 				p->ve.t.max_simul = p->globve.t.max_simul;
 			}
+			/* bang run_as, user and group that is, each on its
+			 * own, directory and shell are the event's */
 			if (!p->ve.t.run_as.u) {
-				/* bang run_as, user and group that is,
-				 * directory and shell are the event's */
 				p->ve.t.run_as.u = p->globve.t.run_as.u;
+			}
+			if (!p->ve.t.run_as.g) {
 				p->ve.t.run_as.g = p->globve.t.run_as.g;
 			}
 			/* calendar-wide user or group names are shared by
